@@ -5,6 +5,8 @@ pub mod c01;
 pub mod c02;
 pub mod c03;
 pub mod c04;
+pub mod c05;
+pub mod c06;
 
 use crate::engine::run::Ctx;
 
@@ -16,6 +18,8 @@ pub fn dispatch(id: &str, ctx: &Ctx) -> Option<i32> {
         "C02" => c02::run(ctx),
         "C03" => c03::run(ctx),
         "C04" => c04::run(ctx),
+        "C05" => c05::run(ctx),
+        "C06" => c06::run(ctx),
         _ => return None,
     })
 }
